@@ -266,8 +266,8 @@ func (fr *frame) hazard(class, g, okCond string, pos token.Pos, what string) {
 	// `safety only c1 c2`: of the panic classes, only the named ones are obligations of this function (listed)
 	if root := fr.rootFr; root != nil && root.contract != nil && panicClasses[class] {
 		if sc := root.contract.First("safety"); strings.HasPrefix(sc, "only ") {
-			if !strings.Contains(" "+sc[5:]+" ", " "+class+" ") {
-				fr.vc.note("safety restricted on " + fr.vc.fn + ": only the panic classes " + sc[5:] + " are checked")
+			if !strings.Contains(" "+sc[5:]+" ", " "+class+" ") || fr != root {
+				fr.vc.note("safety restricted on " + fr.vc.fn + ": only the panic classes " + sc[5:] + " of its own body (not of inlined callees) are checked")
 				return
 			}
 		}
